@@ -801,3 +801,51 @@ def phase_flatjoin(ctx, phase):
     ctx.replay_stats["steps_new"] = ctx.replay_stats.get("steps_new", 0) + sum(len(c["pre"]) + 1 for c in found) + sum(len(c["pre"]) + 1 for c in decided)
     ctx.replay_stats["nontrivial"] = ctx.replay_stats.get("nontrivial", 0) + len(found) + len(seen)
     return None
+
+
+def _tlapm(d, timeout=600):
+    import re
+    import subprocess
+
+    p = subprocess.run(["tlapm", "--threads", "8", "--cleanfp", "Proofs.tla"], cwd=d, capture_output=True, text=True, timeout=timeout)
+    out = p.stdout + p.stderr
+    m = re.search(r"All (\d+) obligations? proved", out)
+    f = re.search(r"(\d+)/(\d+) obligations failed", out)
+    return dict(rc=p.returncode, proved=int(m.group(1)) if m else None, failed=int(f.group(1)) if f else 0, out=out)
+
+
+def phase_proofs(ctx, phase):
+    """TLAPS: the theorems of spec/Proofs.tla about the definitions of ValuesCore.tla, for ALL integers (TLC checks the same laws on grids).
+    Binding demonstration: with the sign rule of `//` removed from ValuesCore.tla the proof of TruncDivMod must fail."""
+    import shutil
+    import time as _t
+
+    t0 = _t.time()
+    d = os.path.join(tlc.WORK, f"{ctx.prop}-proofs-{os.getpid()}")
+    shutil.rmtree(d, ignore_errors=True)
+    os.makedirs(d)
+    for f in ("ValuesCore.tla", "Proofs.tla"):
+        shutil.copy(os.path.join(tlc.SPEC, f), d)
+    r = _tlapm(d)
+    if r["proved"] is None or r["failed"]:
+        raise tlc.TlcError("TLAPS: the proofs of spec/Proofs.tla no longer go through (specification regression):\n" + r["out"][-3000:])
+    text = open(os.path.join(d, "Proofs.tla")).read()
+    import re
+    theorems = re.findall(r"^THEOREM (\w+)", text, re.M)
+    canary = None
+    if phase.get("canary", True):
+        core = open(os.path.join(d, "ValuesCore.tla")).read()
+        old = "IF (a < 0) # (b < 0) THEN -q ELSE q"
+        assert old in core
+        open(os.path.join(d, "ValuesCore.tla"), "w").write(core.replace(old, "q"))
+        shutil.rmtree(os.path.join(d, ".tlacache"), ignore_errors=True)
+        r2 = _tlapm(d)
+        if not r2["failed"]:
+            raise tlc.TlcError("TLAPS canary: a wrong definition of `//` (no sign rule) was still proved:\n" + r2["out"][-2000:])
+        canary = dict(mutation="TDivI without the sign rule", obligations_failed=r2["failed"])
+    ctx.extra["tlaps"] = dict(module="Proofs.tla over ValuesCore.tla", obligations_proved=r["proved"], theorems=theorems,
+                              canary=canary, wall=round(_t.time() - t0, 1),
+                              note="unbounded (all integers / naturals); the same definitions are the ones TLC evaluates in every model")
+    ctx.tlc_runs.append(dict(profile="tlaps-proofs", states=0, distinct=0, obligations=r["proved"], wall=round(_t.time() - t0, 1), mode="TLAPS (SMT back end)"))
+    shutil.rmtree(d, ignore_errors=True)
+    return None
